@@ -231,14 +231,28 @@ func (c *FnCtx) builtin(st *State, name string, call *ast.CallExpr) []Val {
 				c.oblige(st, "make", call.Pos(), app("bvsge", s.T, bvInt(0, s.S.W)), "make: negative size hint")
 			}
 		}
+		if mv, ok := c.makeScalarMap(t); ok {
+			return []Val{mv}
+		}
 		return []Val{OpaqueVal{t}}
 	case "append":
 		return []Val{c.appendCall(st, call)}
 	case "copy":
 		return []Val{c.copyCall(st, call)}
 	case "delete":
+		var vs []Val
 		for _, a := range call.Args {
-			c.eval(st, a)
+			vs = append(vs, c.eval(st, a))
+		}
+		// delete on a locally made integer map: the key reads the zero value afterwards
+		if len(vs) == 2 {
+			if b, ok := vs[0].(SV); ok && b.S.K == KArray {
+				if kv, ok := vs[1].(SV); ok && kv.S.K == KBV {
+					if id, ok := call.Args[0].(*ast.Ident); ok {
+						st.env[c.prog.Info.ObjectOf(id)] = SV{c.define("map", b.S, app("store", b.T, resize(kv.T, kv.S.W, 64, kv.Signed), bvInt(0, b.S.Elem.W))), b.S, b.Signed}
+					}
+				}
+			}
 		}
 		return nil
 	case "new":
@@ -752,4 +766,24 @@ func mentionsAny(e ast.Expr, names []string) bool {
 		return !hit
 	})
 	return hit
+}
+
+
+// makeScalarMap models make(map[K]V) with K a 64-bit integer type and V an integer type as an SMT array from keys to
+// values in which every key reads V's zero value (Go's value for an absent key).  Presence is not tracked: the ok of
+// `v, ok := m[k]` stays arbitrary.  Only maps made inside the function under verification get this model (value
+// semantics are sound for them as long as they are not handed to callees, which see an opaque value).
+func (c *FnCtx) makeScalarMap(t types.Type) (Val, bool) {
+	m, ok := t.Underlying().(*types.Map)
+	if !ok {
+		return nil, false
+	}
+	kw, _, kok := basicInfo(m.Key())
+	vw, vs, vok := basicInfo(m.Elem())
+	if !kok || !vok || kw != 64 {
+		return nil, false
+	}
+	es := BV(vw)
+	srt := Sort{K: KArray, Elem: &es}
+	return SV{c.define("map", srt, fmt.Sprintf("((as const %s) %s)", srt.String(), bvInt(0, vw))), srt, vs}, true
 }
